@@ -126,7 +126,14 @@ pub fn point(rng: &mut Rng, fr: &Frame, class: &str) -> (f64, f64) {
     match class {
         "uniform" => lonlat_from_unit(uniform_dir(rng)),
         "polar" => {
-            let lon = rng.range(-180.0, 180.0);
+            // any meridian; a third of the time on / next to the meridians where a longitude representation has its seam: the
+            // antimeridian, the library's internal zero (93 W) and its opposite (87 E), 0 and +-90
+            let lon = if rng.chance(0.33) {
+                let eps = if rng.chance(0.2) { 0.0 } else { rng.log10(0.0, 14.0) * 10.0 * rng.sign() };
+                *rng.pick(&[180.0, -180.0, -93.0, 87.0, 0.0, 90.0, -90.0]) + eps
+            } else {
+                rng.range(-180.0, 180.0)
+            };
             if rng.chance(0.1) {
                 return (lon, 90.0 * rng.sign());
             }
@@ -328,6 +335,20 @@ pub fn random_root(rng: &mut Rng) -> MCell {
 }
 
 /// a cell set of the given flavour; "antichain*" flavours are non-overlapping
+/// stratum label for the length of a list argument
+pub fn len_bucket(n: usize) -> &'static str {
+    match n {
+        0 => "0",
+        1 => "1",
+        2..=7 => "2-7",
+        8..=63 => "8-63",
+        64..=511 => "64-511",
+        512..=4095 => "512-4095",
+        4096..=32767 => "4096-32767",
+        _ => "32768+",
+    }
+}
+
 pub fn cell_set(rng: &mut Rng, flavour: &str) -> Vec<MCell> {
     let mut out = Vec::new();
     match flavour {
@@ -458,6 +479,38 @@ pub fn cell_set(rng: &mut Rng, flavour: &str) -> Vec<MCell> {
             }
             out.sort();
             out.dedup();
+        }
+        "sized" => {
+            // a run of consecutive same-resolution cells (optionally thinned) whose LENGTH sits on a power-of-two boundary or is
+            // simply large: what a fast path for long lists, a chunked loop or a narrow length counter has to survive
+            const SMALL: [usize; 30] = [1, 2, 3, 4, 5, 7, 8, 9, 15, 16, 17, 31, 32, 33, 63, 64, 65, 127, 128, 129, 255, 256, 257, 511, 512, 513, 1000, 1023, 1024, 1025];
+            const LARGE: [usize; 12] = [2047, 2048, 2049, 4095, 4096, 4097, 10_000, 16_383, 16_384, 16_385, 65_535, 65_537];
+            let len = if rng.chance(0.012) { *rng.pick(&LARGE) } else { *rng.pick(&SMALL) };
+            let mut depth = 1;
+            while (1usize << (2 * depth)) < len + 8 {
+                depth += 1;
+            }
+            let root_res = 1 + rng.below((MAX_RES - depth as i32) as u64) as i32;
+            let root = random_cell(rng, root_res);
+            let all = children_at(root, root.res + depth as i32);
+            let mut start = rng.usize(all.len() - len + 1);
+            if rng.chance(0.5) {
+                start &= !3; // sibling-group aligned
+            }
+            out.extend_from_slice(&all[start..start + len]);
+            if rng.chance(0.3) && len > 8 {
+                // thin it: drop a few cells so that only some groups are complete (the length stays on the list below)
+                for _ in 0..1 + rng.below(3) {
+                    let k = rng.usize(out.len());
+                    out.remove(k);
+                }
+                // and top up from the cells after the run so that the length is the intended one again
+                let mut next = start + len;
+                while out.len() < len && next < all.len() {
+                    out.push(all[next]);
+                    next += 1;
+                }
+            }
         }
         "spine" => {
             // a complete covering of a root in which ONE path is refined all the way down to a random depth (up to the
